@@ -193,17 +193,17 @@ pub(super) fn derive_schema(input: TokenStream) -> syn::Result<TokenStream> {
                         || field_attrs.serde.skip_serializing_if.is_some();
 
                     let mut property_schema = {
-                        if let Some(inner_option) = inner_option {quote! {
-                            ::ohkami::openapi::schema::Schema::<::ohkami::openapi::schema::Type::any>::from(
-                                <#inner_option as ::ohkami::openapi::Schema>::schema()
-                                    .into(/* SchemaRef */).into_inline().unwrap()
-                            )
-                        }} else {quote! {
+                        /* `Option<T>` is `T` or `null` ( `None` ), except when flattened: then the properties of `T` are needed */
+                        let ty = match &inner_option {
+                            Some(inner_option) if field_attrs.serde.flatten => inner_option,
+                            _ => ty
+                        };
+                        quote! {
                             ::ohkami::openapi::schema::Schema::<::ohkami::openapi::schema::Type::any>::from(
                                 <#ty as ::ohkami::openapi::Schema>::schema()
                                     .into(/* SchemaRef */).into_inline().unwrap()
                             )
-                        }}
+                        }
                     };
 
                     if let Some(description) = extract_doc_comment(&f.attrs) {
@@ -307,10 +307,7 @@ pub(super) fn derive_schema(input: TokenStream) -> syn::Result<TokenStream> {
                         continue
                     }
 
-                    let ty = match inner_Option(&u.ty) {
-                        Some(inner_option) => inner_option,
-                        None => u.ty.clone()
-                    };
+                    let ty = &u.ty;
 
                     let mut schema = quote! {
                         ::ohkami::openapi::schema::Schema::<::ohkami::openapi::schema::Type::any>::from(
